@@ -357,6 +357,7 @@ func (m c02) Case(c *Ctx, r *RNG) {
 }
 
 func (m c02) Directed(c *Ctx) {
+	tagOptCheck(c, "C02")
 	t := TypeSpec{Name: "t", Attrs: []AttrSpec{{Name: "a", Kind: KString}, {Name: "n", Kind: KUint64, Null: true}}, Rels: []RelSpec{{Name: "one", ToOne: true, ToType: "u"}, {Name: "many", ToType: "u"}}}
 	u := TypeSpec{Name: "u", Wrapped: true, Attrs: []AttrSpec{{Name: "x", Kind: KTime}}}
 	s := &SchemaSpec{Types: []TypeSpec{t, u}}
